@@ -695,3 +695,260 @@ Proof.
   - destruct (sf_slot_get slots h) as [g|] eqn:Eh; cbn; rewrite Hi; eauto.
   - destruct (sf_slot_get slots h) as [g|] eqn:Eh; cbn; rewrite Hi; eauto.
 Qed.
+
+(* ================================================================ G. names: well-formed trees *)
+(* every entry has a non-root name and its parent is a directory *)
+Definition wf (t : list (pkey * snode)) : Prop :=
+  forall k v, In (k, v) t -> k <> [] /\ lfetch t (removelast k) = Some NDir.
+
+Lemma wf_nil : wf [].
+Proof. intros k v []. Qed.
+
+Lemma removelast_neq {A} (k : list A) : k <> [] -> removelast k <> k.
+Proof.
+  intros Hk Heq. assert (H : length (removelast k) = length k) by now rewrite Heq.
+  destruct k as [|x k]; [contradiction|].
+  rewrite (app_removelast_last x Hk) in H at 2.
+  rewrite app_length in H. simpl in H. lia.
+Qed.
+
+Lemma In_kget_some {A} k (v : A) t : In (k, v) t -> exists v', kget k t = Some v'.
+Proof.
+  induction t as [|[k' v'] t IH]; simpl; [intros []|].
+  intros [H|H].
+  - inversion H; subst. rewrite keqb_refl. eauto.
+  - destruct (keqb k k'); eauto.
+Qed.
+
+Lemma kget_none {A} q (t : list (pkey * A)) : (forall k v, In (k, v) t -> k <> q) -> kget q t = None.
+Proof.
+  induction t as [|[k' v'] t IH]; simpl; intros H; [reflexivity|].
+  rewrite keqb_neq by (intros ->; eapply H; [left; reflexivity | reflexivity]).
+  apply IH. intros k v Hin. apply (H k v). now right.
+Qed.
+
+Lemma lfetch_nonroot t k : k <> [] -> lfetch t k = kget k t.
+Proof. destruct k; [contradiction | reflexivity]. Qed.
+
+Lemma putfile_wf t k n t' : wf t -> putfile t k n = SOk t' -> wf t'.
+Proof.
+  unfold putfile, canon_err. intros Hwf.
+  destruct (lfetch t (removelast k)) as [[|i]|] eqn:Ep; try discriminate.
+  destruct (lfetch t k) eqn:Ek; [discriminate|]. intros H; inversion H; subst t'; clear H.
+  assert (Hk : k <> []) by (eapply lfetch_none_nonroot; eauto).
+  intros k' v' Hin. apply In_kset in Hin. destruct Hin as [Heq|Hin].
+  - inversion Heq; subst. split; [exact Hk|].
+    rewrite lfetch_kset by exact Hk. rewrite keqb_neq by (apply removelast_neq; exact Hk). exact Ep.
+  - destruct (Hwf _ _ Hin) as [Hk' Hp]. split; [exact Hk'|].
+    rewrite lfetch_kset by exact Hk.
+    destruct (keqb (removelast k') k) eqn:E; [|exact Hp].
+    apply keqb_eq in E. rewrite E in Hp. congruence.
+Qed.
+
+Lemma kdel_wf t k : wf t -> (forall k' v', In (k', v') t -> removelast k' <> k) -> wf (kdel k t).
+Proof.
+  intros Hwf Hnc k' v' Hin. apply In_kdel in Hin. destruct Hin as [Hin Hne]. simpl in Hne.
+  destruct (Hwf _ _ Hin) as [Hk' Hp]. split; [exact Hk'|].
+  rewrite lfetch_kdel by (eapply Hnc; eauto). exact Hp.
+Qed.
+
+Lemma kdel_wf_file t k i : wf t -> lfetch t k = Some (NFile i) -> wf (kdel k t).
+Proof.
+  intros Hwf Hk. apply kdel_wf; [exact Hwf|]. intros k' v' Hin Heq.
+  destruct (Hwf _ _ Hin) as [_ Hp]. rewrite Heq in Hp. congruence.
+Qed.
+
+Lemma has_child_false t k : has_child t k = false -> forall k' v', In (k', v') t -> removelast k' <> k.
+Proof.
+  unfold has_child. intros H k' v' Hin Heq.
+  assert (Ht : existsb (fun '(k'0, _) => keqb (removelast k'0) k) t = true).
+  { apply existsb_exists. exists (k', v'). split; [exact Hin|]. now apply keqb_eq. }
+  congruence.
+Qed.
+
+(* ---- prefixes *)
+Lemma kstrip_spec p k rest : kstrip p k = Some rest <-> k = p ++ rest.
+Proof.
+  revert k; induction p as [|x p IH]; intros k; simpl.
+  - split; [intros H; now inversion H | intros ->; reflexivity].
+  - destruct k as [|y k]; [split; [discriminate | intros H; discriminate]|].
+    destruct (beqb x y) eqn:E.
+    + apply beqb_eq in E; subst y. rewrite IH. split; [intros ->; reflexivity | intros H; now inversion H].
+    + split; [discriminate|]. intros H; inversion H; subst.
+      rewrite (proj2 (beqb_eq _ _) eq_refl) in E. discriminate.
+Qed.
+
+Lemma kstrip_none p k : kstrip p k = None <-> forall rest, k <> p ++ rest.
+Proof.
+  split.
+  - intros H rest Heq. apply kstrip_spec in Heq. congruence.
+  - intros H. destruct (kstrip p k) as [rest|] eqn:E; [|reflexivity].
+    apply kstrip_spec in E. exfalso. eapply H; eauto.
+Qed.
+
+(* an absent name has nothing below it *)
+Lemma absent_no_desc t q : wf t -> lfetch t q = None ->
+  forall rest k v, In (k, v) t -> k <> q ++ rest.
+Proof.
+  intros Hwf Hq.
+  assert (Hq0 : q <> []) by (eapply lfetch_none_nonroot; eauto).
+  induction rest as [|x rest IH] using rev_ind; intros k v Hin Heq.
+  - rewrite app_nil_r in Heq; subst k. destruct (In_kget_some _ _ _ Hin) as [v' Hv'].
+    rewrite lfetch_nonroot in Hq by exact Hq0. congruence.
+  - destruct (Hwf _ _ Hin) as [_ Hp]. subst k.
+    rewrite app_assoc, removelast_last in Hp.
+    assert (Hne : q ++ rest <> []) by (destruct q; [contradiction | discriminate]).
+    rewrite lfetch_nonroot in Hp by exact Hne.
+    apply kget_In in Hp. eapply IH; eauto.
+Qed.
+
+Lemma keqb_iff a b c d : (a = b <-> c = d) -> keqb a b = keqb c d.
+Proof.
+  intros H. destruct (keqb a b) eqn:E1, (keqb c d) eqn:E2; try reflexivity.
+  - apply keqb_eq in E1. apply H in E1. apply keqb_eq in E1. congruence.
+  - apply keqb_eq in E2. apply H in E2. apply keqb_eq in E2. congruence.
+Qed.
+
+(* where a name of the renamed tree comes from *)
+Definition rename_src (p tg q : pkey) : pkey :=
+  match kstrip tg q with Some rest => p ++ rest | None => q end.
+
+Lemma kget_map_rename p tg (t : list (pkey * snode)) q :
+  (forall k v, In (k, v) t -> kstrip tg k = None) -> kstrip p q = None ->
+  kget q (map (fun '(k, v) => (rename_key p tg k, v)) t) = kget (rename_src p tg q) t.
+Proof.
+  intros Hno Hq. induction t as [|[k v] t IH]; [reflexivity|].
+  cbn [map kget].
+  assert (Hk : kstrip tg k = None) by (eapply Hno; left; reflexivity).
+  assert (E : keqb q (rename_key p tg k) = keqb (rename_src p tg q) k).
+  { apply keqb_iff. unfold rename_key, rename_src.
+    destruct (kstrip p k) as [rest|] eqn:Epk; destruct (kstrip tg q) as [r'|] eqn:Etq.
+    - apply kstrip_spec in Epk, Etq. subst. split; intros H.
+      + apply app_inv_head in H. now subst.
+      + apply app_inv_head in H. now subst.
+    - apply kstrip_spec in Epk. subst k. split; intros H.
+      + subst q. rewrite (proj2 (kstrip_spec tg (tg ++ rest) rest) eq_refl) in Etq. discriminate.
+      + subst q. rewrite (proj2 (kstrip_spec p (p ++ rest) rest) eq_refl) in Hq. discriminate.
+    - apply kstrip_spec in Etq. subst q. split; intros H.
+      + subst k. rewrite (proj2 (kstrip_spec tg (tg ++ r') r') eq_refl) in Hk. discriminate.
+      + subst k. rewrite (proj2 (kstrip_spec p (p ++ r') r') eq_refl) in Epk. discriminate.
+    - reflexivity. }
+  rewrite E. destruct (keqb (rename_src p tg q) k); [reflexivity|].
+  apply IH. intros k0 v0 Hin. eapply Hno. right; eauto.
+Qed.
+
+(* what a successful SSH_FXP_RENAME has checked *)
+Definition rename_pre (t : list (pkey * snode)) (p tg : pkey) : Prop :=
+  wf t /\ p <> [] /\ (exists n, lfetch t p = Some n) /\ lfetch t tg = None /\
+  lfetch t (removelast tg) = Some NDir /\ kstrip p tg = None.
+
+Definition renamed (t : list (pkey * snode)) (p tg : pkey) : list (pkey * snode) :=
+  map (fun '(k, v) => (rename_key p tg k, v)) t.
+
+Lemma srv_rename_ok s p tg s' : wf (s_tree s) -> srv_rename s p tg = SOk s' ->
+  rename_pre (s_tree s) p tg /\ s' = mkSrv (renamed (s_tree s) p tg) (s_objs s).
+Proof.
+  intros Hwf. unfold srv_rename, srv_exists.
+  destruct (canon_err (s_tree s) tg) as [e|] eqn:Ec.
+  - destruct (lfetch (s_tree s) p); [|discriminate]. destruct p; discriminate.
+  - destruct (lfetch (s_tree s) tg) eqn:Et; [discriminate|].
+    destruct (lfetch (s_tree s) p) as [n|] eqn:Ep; [|discriminate].
+    destruct p as [|x p]; [discriminate|].
+    destruct (kstrip (x :: p) tg) eqn:Ek; [discriminate|].
+    intros H; inversion H; subst; clear H. split; [|reflexivity].
+    unfold rename_pre. split; [exact Hwf|]. split; [discriminate|]. split; [eauto|].
+    split; [exact Et|]. split; [|exact Ek].
+    unfold canon_err in Ec. destruct (lfetch (s_tree s) (removelast tg)) as [[|i]|]; try discriminate. reflexivity.
+Qed.
+
+Lemma rename_no_under_tg t p tg : rename_pre t p tg -> forall k v, In (k, v) t -> kstrip tg k = None.
+Proof.
+  intros (Hwf & _ & _ & Htg & _ & _) k v Hin. apply kstrip_none. intros rest.
+  eapply absent_no_desc; eauto.
+Qed.
+
+Lemma rename_incomparable t p tg : rename_pre t p tg -> forall a b, tg ++ a <> p ++ b.
+Proof.
+  intros (Hwf & Hp0 & [n Hp] & Htg & _ & Hk) a b Heq.
+  apply app_eq_app in Heq. destruct Heq as [l [[H1 H2]|[H1 H2]]].
+  - apply kstrip_spec in H1. congruence.
+  - rewrite lfetch_nonroot in Hp by exact Hp0. apply kget_In in Hp.
+    eapply (absent_no_desc _ _ Hwf Htg l); eauto.
+Qed.
+
+Lemma tg_nonroot t p tg : rename_pre t p tg -> tg <> [].
+Proof. intros (_ & _ & _ & Htg & _). eapply lfetch_none_nonroot; eauto. Qed.
+
+(* the names after a rename: nothing is left below the old name, everything else is where it
+   was, and the new name (and what is below it) holds what the old one held *)
+Lemma lookup_renamed t p tg : rename_pre t p tg -> forall q,
+  lfetch (renamed t p tg) q =
+  match kstrip p q with Some _ => None | None => lfetch t (rename_src p tg q) end.
+Proof.
+  intros Hpre q. pose proof Hpre as (Hwf & Hp0 & Hp & Htg & Hc & Hk).
+  pose proof (tg_nonroot _ _ _ Hpre) as Htg0.
+  destruct q as [|x q].
+  - destruct p; [contradiction|]. unfold rename_src. destruct tg; [contradiction | reflexivity].
+  - destruct (kstrip p (x :: q)) as [r|] eqn:Eq.
+    + apply kstrip_spec in Eq. cbn [lfetch]. apply kget_none. intros k v Hin Hkq.
+      unfold renamed in Hin. apply in_map_iff in Hin. destruct Hin as [[k0 v0] [Hf Hin0]].
+      injection Hf as Hk1 Hv1. rewrite <- Hk1 in Hkq. unfold rename_key in Hkq.
+      destruct (kstrip p k0) as [rest|] eqn:E0.
+      * rewrite Eq in Hkq. eapply rename_incomparable; eauto.
+      * rewrite Eq in Hkq. subst k0. rewrite (proj2 (kstrip_spec p (p ++ r) r) eq_refl) in E0. discriminate.
+    + cbn [lfetch]. unfold renamed.
+      rewrite kget_map_rename; [| eapply rename_no_under_tg; eauto | exact Eq].
+      symmetry. apply lfetch_nonroot. unfold rename_src.
+      destruct (kstrip tg (x :: q)); [|discriminate].
+      destruct p; [contradiction | discriminate].
+Qed.
+
+Lemma length_removelast {A} (k : list A) : k <> [] -> S (length (removelast k)) = length k.
+Proof.
+  intros Hk. destruct k as [|x k]; [contradiction|].
+  rewrite (app_removelast_last x Hk) at 2. rewrite app_length. simpl. lia.
+Qed.
+
+Lemma rename_wf t p tg : rename_pre t p tg -> wf (renamed t p tg).
+Proof.
+  intros Hpre. pose proof Hpre as (Hwf & Hp0 & Hp & Htg & Hc & Hk).
+  pose proof (tg_nonroot _ _ _ Hpre) as Htg0.
+  intros k' v' Hin. unfold renamed in Hin. apply in_map_iff in Hin.
+  destruct Hin as [[k v] [Hf Hin]]. inversion Hf; subst k' v'; clear Hf.
+  destruct (Hwf _ _ Hin) as [Hk0 Hpar].
+  unfold rename_key. destruct (kstrip p k) as [rest|] eqn:Epk.
+  - apply kstrip_spec in Epk. subst k. split; [destruct tg; [contradiction | discriminate]|].
+    rewrite (lookup_renamed _ _ _ Hpre).
+    destruct (list_eq_dec (list_eq_dec N.eq_dec) rest []) as [->|Hrest].
+    + rewrite app_nil_r.
+      assert (E1 : kstrip p (removelast tg) = None).
+      { apply kstrip_none. intros r Hr.
+        destruct tg as [|y tg']; [contradiction|].
+        rewrite (app_removelast_last y Htg0) in Hk. rewrite Hr, <- app_assoc in Hk.
+        rewrite (proj2 (kstrip_spec p _ _) eq_refl) in Hk. discriminate. }
+      rewrite E1. unfold rename_src.
+      assert (E2 : kstrip tg (removelast tg) = None).
+      { apply kstrip_none. intros r Hr. pose proof (length_removelast tg Htg0) as Hl.
+        rewrite Hr, app_length in Hl. lia. }
+      rewrite E2. exact Hc.
+    + rewrite removelast_app by exact Hrest.
+      assert (E1 : kstrip p (tg ++ removelast rest) = None).
+      { apply kstrip_none. intros r Hr. eapply rename_incomparable; eauto. }
+      rewrite E1. unfold rename_src.
+      rewrite (proj2 (kstrip_spec tg _ _) eq_refl).
+      rewrite removelast_app in Hpar by exact Hrest. exact Hpar.
+  - split; [exact Hk0|]. rewrite (lookup_renamed _ _ _ Hpre).
+    assert (E1 : kstrip p (removelast k) = None).
+    { apply kstrip_none. intros r Hr.
+      destruct k as [|y k']; [contradiction|].
+      rewrite (app_removelast_last y Hk0) in Epk. rewrite Hr, <- app_assoc in Epk.
+      rewrite (proj2 (kstrip_spec p _ _) eq_refl) in Epk. discriminate. }
+    rewrite E1. unfold rename_src.
+    assert (E2 : kstrip tg (removelast k) = None).
+    { apply kstrip_none. intros r Hr.
+      destruct (removelast k) as [|y q] eqn:Eq.
+      - destruct tg; [contradiction | discriminate].
+      - cbn [lfetch] in Hpar. apply kget_In in Hpar.
+        eapply (absent_no_desc _ _ Hwf Htg r); eauto. }
+    rewrite E2. exact Hpar.
+Qed.
